@@ -35,7 +35,7 @@ def run(sc, module, trs, what, n, seed):
                     scripts.append(bgen.stream_script(b, kind, trs.split(",")[0], "sim-%s-%d" % (kind, j), seed * 1000 + j,
                                                       gated="http" if "gated" in sys.argv[6:] else False))
         props.run_scripts(ctx, scripts, "dev")
-        print("violations:", sorted(set((v["prop"], v["why"]) for v in getattr(ctx, "allviol", []))))
+        import collections; print("violations:", sorted(collections.Counter((v["prop"], v["why"]) for v in getattr(ctx, "allviol", [])).items()))
         d = sc.path("run-dev")
         files = sorted(os.path.join(d, f) for f in os.listdir(d)
                        if f.startswith("t") and ".ndjson" in f and not f.endswith((".meta", ".journal")))
